@@ -126,7 +126,7 @@ type mutant struct {
 	Index int    `json:"index"` // position in the tileMatrices array
 }
 
-var c14Kinds = []string{"none", "matrixWidth*2", "matrixHeight+1", "matrixWidth&Height*2", "matrixWidth&Height+1", "matrixWidth&Height-1", "tileWidth&Height/2", "tileWidth&Height*2", "cellSize*0.98", "matrix/2&tile*2", "matrix*2&tile/2", "tileWidth/2", "tileHeight/2", "origin.x+1", "origin.y-1e-6", "corner-flipped",
+var c14Kinds = []string{"none", "matrixWidth*2", "matrixHeight+1", "matrixWidth&Height*2", "matrixWidth&Height+1", "matrixWidth&Height-1", "tileWidth&Height/2", "tileWidth&Height*2", "cellSize*0.98", "matrix/2&tile*2", "matrix*2&tile/2", "tileWidth/2", "tileHeight/2", "origin.x+1", "origin.y-1e-6", "origin.x+ulp", "origin.x-ulp", "origin.y+ulp", "origin.y-ulp", "corner-flipped",
 	"cellSize*1.02", "cellSize*2", "cellSize/2", "id+100", "remove", "variableMatrixWidths"}
 
 func applyMutant(doc map[string]any, m mutant) map[string]any {
@@ -171,6 +171,16 @@ func applyMutant(doc map[string]any, m mutant) map[string]any {
 	case "origin.y-1e-6":
 		po := tm["pointOfOrigin"].([]any)
 		po[1] = po[1].(float64) - 1e-6
+	case "origin.x+ulp", "origin.x-ulp", "origin.y+ulp", "origin.y-ulp": // the nearest other float64: still another origin
+		po := tm["pointOfOrigin"].([]any)
+		ax, dir := 0, math.Inf(1)
+		if m.Kind[7] == 'y' {
+			ax = 1
+		}
+		if m.Kind[8] == '-' {
+			dir = math.Inf(-1)
+		}
+		po[ax] = math.Nextafter(po[ax].(float64), dir)
 	case "corner-flipped":
 		if c, _ := tm["cornerOfOrigin"].(string); c == "bottomLeft" {
 			tm["cornerOfOrigin"] = "topLeft"
